@@ -23,3 +23,22 @@ package tokens
 //@   loop 1: invariant ((verified / 4) % 2 == 1) <==> (exists j int :: 0 <= j && j < idx(1) && timeCaveatValid(caveats[j], now))
 //@   loop 1: invariant forall j int :: 0 <= j && j < idx(1) ==> knownCaveat(caveats[j])
 //@   assigns nothing
+
+//@ func isValidTokenOptions
+//@   property C20
+//@   ensures valid: result <==> (op.ServerPrivateKey != nil && op.ServerName != "" && op.UserID != "")
+//@   assigns nothing
+
+//@ func ValidateToken
+//@   property C20
+//@   ensures parsed: err == nil ==> called(deSerializeMacaroon) && ret(deSerializeMacaroon, 1) == nil
+//@   ensures signed: err == nil ==> called(VerifySignature) && ret(VerifySignature, 1) == nil
+//@   ensures caveats-checked: err == nil ==> called(verifyCaveats) && ret(verifyCaveats) == nil
+//@   calls VerifySignature key: rootKey == op.ServerPrivateKey
+//@   calls verifyCaveats args: caveats == ret(VerifySignature, 0) && userID == op.UserID
+
+//@ func GenerateLoginToken
+//@   property C20
+//@   calls macaroon.New base: rootKey == op.ServerPrivateKey && str(id) == op.UserID && loc == op.ServerName
+//@   calls AddFirstPartyCaveat caveat-shape: str(caveat) == "gen = 1" || str(caveat) == "user_id = " + op.UserID || str(caveat) == "time < " + itoa(nowUnix + (op.Duration == 0 ? 120 : op.Duration))
+//@   ensures options-checked: err == nil ==> (op.ServerPrivateKey != nil && op.ServerName != "" && op.UserID != "")
